@@ -77,8 +77,13 @@ impl Bounds {
     pub(crate) fn div_by(self, divisor: f64) -> Self {
         if divisor == 0.0 {
             Self::UNBOUNDED
+        } else if divisor > 0.0 {
+            // divide the endpoints instead of scaling by `1.0 / divisor`: the
+            // reciprocal of a subnormal divisor overflows to infinity and
+            // `0.0 * inf` would put a NaN endpoint into the interval
+            Self::new(self.lower / divisor, self.upper / divisor)
         } else {
-            self.scale(1.0 / divisor)
+            Self::new(self.upper / divisor, self.lower / divisor)
         }
     }
 
